@@ -356,8 +356,12 @@ func init() {
 				if n := w.Stor.RemovedWhileOpen; n > 0 {
 					cr.Viol = append(cr.Viol, fmt.Sprintf("%d file(s) removed while still open", n))
 				}
-				w.CheckResidue("after the concurrent window")
-				cr.Viol = append(cr.Viol, w.Viol...)
+				if cr.P == nil || len(cr.P.Faults) == 0 {
+					// (with a fault armed a failed commit may still sit in its back-off: those drivers
+					// ask for the residue check after settling instead, concParams.Residue)
+					w.CheckResidue("after the concurrent window")
+					cr.Viol = append(cr.Viol, w.Viol...)
+				}
 			})
 		}
 	}})
@@ -435,6 +439,16 @@ func init() {
 			drivers := []concParams{
 				{Name: "iterator-vs-flush-compact", Cfg: "flushy/bytewise", Pre: []string{"put:a", "put:b", "q"}, Clients: [][]string{{"iterscan"}, {"put:a", "put:a"}}, QB: 2, TB: 3},
 				{Name: "iterator-vs-compactrange", Cfg: "tinycache/bytewise", Pre: []string{"put:a", "put:b", "put:c", "q"}, Clients: [][]string{{"iterscan", "get:a"}, {"cr"}}, QB: 1, TB: 2},
+			}
+			// files become obsolete while everything else is busy: after the window has settled only
+			// live files remain - also when a commit failed once on the way (manifest sync fault) and
+			// when removed tables give their numbers back (evict option set)
+			drivers = append(drivers,
+				concParams{Name: "writers-vs-compactrange-residue", Cfg: "flushy/bytewise", Pre: []string{"put:a", "put:b"}, Clients: [][]string{{"put:a", "put:b"}, {"cr"}, {"get:a"}}, QB: 1, TB: 2, Residue: true},
+				concParams{Name: "evict-writers-vs-compactrange-residue", Cfg: "evict/bytewise", Pre: []string{"put:a", "put:b", "put:c"}, Clients: [][]string{{"put:a", "put:b"}, {"cr"}, {"get:a"}}, QB: 1, TB: 2, Residue: true})
+			for nth := 1; nth <= 3; nth++ {
+				drivers = append(drivers, concParams{Name: fmt.Sprintf("writers-vs-compactrange+manifest-sync-fault#%d-residue", nth), Cfg: "flushy/bytewise", Pre: []string{"put:a", "put:b"}, Clients: [][]string{{"put:a", "put:b", "put:a"}, {"cr"}, {"get:a"}},
+					Faults: []faultSpec{{Kind: int(vstor.KSync), Type: int(storage.TypeManifest), Nth: nth, Count: 1, Mode: int(vstor.ModeFail), Name: fmt.Sprintf("sync/manifest#%d x1", nth)}}, QB: 1, TB: 2, Residue: true})
 			}
 			runConcChecks(c, "C07", drivers, 2, 0)
 			// (a) sequences
